@@ -149,16 +149,18 @@ def names_of(behaviours):
 
 
 def short(events):
-    """canonical one-line text of a history (used in signatures and samples)"""
+    """canonical one-line text of a history (used in signatures and samples); names are shown as spelled"""
     parts = []
     for ev in events:
         if ev["op"] == "reg":
             extra = ev["s"] + " " if ev["k"] == "s" else ""
-            parts.append("reg %s:%s %s%s" % ("/".join(ev["p"]), ev["k"], extra, ",".join(ev["d"]) or "-"))
+            parts.append("reg %s:%s %s%s" % ("/".join(ev.get("spell") or ev["p"]), ev["k"], extra, ",".join(ev["d"]) or "-"))
         elif ev["op"] == "load":
-            parts.append("load{%s}" % " ".join("%s:%s%s" % ("/".join(e["p"]), e["k"],
-                                                                ("=" + ",".join(x[1:] for x in e["v"])) if e["k"] != "o" else "")
-                                               for e in canon_entries(ev["f"])))
+            spell = {tuple(k): v for k, v in ev.get("spell", [])}
+            parts.append("load{%s}" % " ".join(
+                "%s:%s%s" % ("/".join(e["p"][:-1] + [spell.get(tuple(e["p"]) + (e["k"],), e["p"][-1])]), e["k"],
+                             ("=" + ",".join(x[1:] for x in e["v"])) if e["k"] != "o" else "")
+                for e in canon_entries(ev["f"])))
         else:
             parts.append(ev["op"])
     return "; ".join(parts)
@@ -288,7 +290,8 @@ class Campaign:
         names = names_of(behaviours)
         keyed = sorted(([json.dumps(ev, sort_keys=True, separators=(",", ":")) for ev in evs], evs)
                        for evs in behaviours)
-        pieces = pieces or max(1, min(NPAR, len(keyed) // 5000))
+        if pieces is None:      # about one step per history; aim at 3000..12000 steps per trace file / TLC run
+            pieces = -(-len(keyed) // max(3000, min(12000, -(-len(keyed) // NPAR))))
         size = -(-len(keyed) // pieces)
         jobs = []
         for lo in range(0, len(keyed), size):
@@ -312,6 +315,8 @@ class Campaign:
                     stack.append((keys[j], nid))
             ids = run_tree(self.harness, names, script, tp, 900)
             f, d, r = validate(ctx, tp, len(ids))
+            if tp == jobs[0][0]:
+                self.exercise(tp, nodes)
 
             def history(lineno):
                 evs, n = [], ids[lineno]
@@ -330,6 +335,46 @@ class Campaign:
                 nf += cf
                 nd += cd
         return fails, drifts, nf, nd
+
+    def exercise(self, tp, nodes):
+        """What the steps of one trace file exercised (anti-vacuity numbers for the evidence; no judgement)."""
+        c = {"steps": 0, "loads_ok": 0, "loads_failed": 0, "loads_running_hooks": 0, "hook_calls": 0,
+             "loads_identical_to_previous": 0, "loads_removing_nodes": 0, "registrations_after_a_load": 0,
+             "registrations_adopting_a_file_node": 0}
+        begin = None
+        size_before = {}
+        with open(tp) as f:
+            next(f)
+            for line in f:
+                rec = json.loads(line)
+                if rec["e"] == "begin":
+                    begin = rec
+                    continue
+                if rec["e"] != "end" or begin is None or begin["n"] != rec["n"]:
+                    continue
+                c["steps"] += 1
+                nid = rec["n"]
+                par = nodes[nid][0] if nid in nodes else 0
+                keys = {(tuple(t["p"]), t["k"]) for t in rec["tree"]}
+                before = size_before.get(par, (set(), None, False))
+                if begin["op"] == "load":
+                    if rec["rc"] == 0:
+                        c["loads_ok"] += 1
+                        c["hook_calls"] += len(rec["hooks"])
+                        c["loads_running_hooks"] += 1 if rec["hooks"] else 0
+                        fkey = json.dumps(begin["f"], sort_keys=True)
+                        c["loads_identical_to_previous"] += 1 if before[1] == fkey else 0
+                        c["loads_removing_nodes"] += 1 if before[0] - keys else 0
+                        size_before[nid] = (keys, fkey, True)
+                    else:
+                        c["loads_failed"] += 1
+                        size_before[nid] = before
+                else:
+                    if begin["op"] == "reg" and before[2]:
+                        c["registrations_after_a_load"] += 1
+                        c["registrations_adopting_a_file_node"] += 1 if (tuple(begin["p"]), begin["k"]) in before[0] else 0
+                    size_before[nid] = (keys, before[1], before[2])
+        self.ctx.cov["exercised_in_first_trace_file"] = c
 
     # -- confirmation, minimisation, reporting ---------------------------------------------------
     def confirm(self, events):
@@ -385,7 +430,10 @@ class Campaign:
         groups = {}
         for names, events in fails:
             groups.setdefault(tuple(sorted(names)), []).append(events)
-        for names, hists in sorted(groups.items()):
+        order = sorted(groups.items(), key=lambda g: (min(len(e) for e in g[1]), g[0]))
+        if len(order) > 6:
+            ctx.note("%d different sets of failing conjuncts; the 6 with the shortest histories are reported" % len(order))
+        for names, hists in order[:6]:
             done = 0
             for events in sorted(hists, key=lambda e: (len(e), len(json.dumps(e))))[:limit]:
                 conj, err = self.confirm(events)
